@@ -999,7 +999,13 @@ def merge_agg(dst, src):
 
 
 def coverage(agg, mode, tier):
+  from sim import ninja_validate
+  if tier == "thorough":
+    val = ninja_validate.validate(400, 300, 24, kernel.verif_seed(), quiet=True)
+  else:
+    val = ninja_validate.validate(40, 30, 2, kernel.verif_seed(), quiet=True)
   return {
+      "ninja_model_validation_against_real_ninja": val,
       "evaluations": agg["builds"],
       "distinct_nontrivial": len(agg["sigs"]),
       "nontrivial_builds": agg["nontrivial"],
@@ -1030,8 +1036,10 @@ def coverage(agg, mode, tier):
                    "analyze_project parse_args/config defaults",
                    "pytype.config argument parser + Options post-processing",
                    "imports_map_loader.ImportsMapBuilder.build_from_file"],
-          "stub": ["ninja (sim/ninja_model.py, cross-validated against the "
-                   "real ninja 1.11 binary by `check.py validate-ninja`)",
+          "stub": ["ninja (sim/ninja_model.py; in this very run cross-validated "
+                   "against the real ninja 1.11 binary: parse equivalence, error "
+                   "equivalence, legality of real -jN traces - counts under "
+                   "ninja_model_validation_against_real_ninja)",
                    "pytype-single step bodies (reads = parsed read set at "
                    "start, writes = -o at finish)",
                    "file system (in-memory SimFS behind open/makedirs/"
